@@ -1,6 +1,9 @@
+mod cfgx;
 mod common;
+mod dequex;
 mod model;
 mod seqx;
+mod sketchx;
 mod sut;
 
 use sut::Cfg;
@@ -21,10 +24,34 @@ fn main() {
             let r = seqx::run_job(&cfg, journal, cap);
             println!("{}", r.to_json());
         }
+        "sketchx" => {
+            // sketchx <cap> <start> <nalpha> <depth> [max_states]
+            let cap: u32 = args[2].parse().unwrap();
+            let nalpha: usize = args[4].parse().unwrap();
+            let depth: usize = args[5].parse().unwrap();
+            let max_states: usize = args.get(6).and_then(|s| s.parse().ok()).unwrap_or(5_000_000);
+            let capw: f64 = std::env::var("MMVERIF_JOB_WALL_S").ok().and_then(|s| s.parse().ok()).unwrap_or(3600.0);
+            let r = sketchx::run(cap, &args[3], nalpha, depth, max_states, capw);
+            println!("{}", r.to_json());
+        }
+        "dequex" => {
+            // dequex <max_nodes> <depth>
+            let n: usize = args[2].parse().unwrap();
+            let d: usize = args[3].parse().unwrap();
+            let capw: f64 = std::env::var("MMVERIF_JOB_WALL_S").ok().and_then(|s| s.parse().ok()).unwrap_or(3600.0);
+            println!("{}", dequex::run(n, d, capw).to_json());
+        }
+        "cfgx" => {
+            println!("{}", cfgx::run().to_json());
+        }
         "replay" => {
             let w = &args[2];
             let v = if w.starts_with("seqx|") {
                 seqx::replay(w)
+            } else if w.starts_with("sketchx|") {
+                sketchx::replay(w)
+            } else if w.starts_with("dequex|") {
+                dequex::replay(w)
             } else {
                 eprintln!("unknown witness kind");
                 std::process::exit(2);
